@@ -1342,14 +1342,154 @@ func (fc *FnCtx) execSend(st *State, x *ast.SendStmt) {
 	fc.fail(x.Pos(), "channel send (outside subset here)")
 }
 
+// Channels are modelled for one protocol only: "close-only" channels. A package without any send statement
+// never sends on the channels it creates, and context.Context.Done() is documented to be closed, never sent on;
+// a receive from such a channel returns exactly when the channel has been closed, and yields the zero value.
+func (fc *FnCtx) closeOnlyPkg(pos token.Pos) {
+	if has, ok := fc.eng.hasSend[fc.pkg.PkgPath]; ok {
+		if has {
+			fc.fail(pos, "channel receive/select in a package that has send statements (only close-only channels are modelled)")
+		}
+		return
+	}
+	has := false
+	for _, f := range fc.pkg.Syntax {
+		ast.Inspect(f, func(n ast.Node) bool {
+			if _, ok := n.(*ast.SendStmt); ok {
+				has = true
+			}
+			return true
+		})
+	}
+	fc.eng.hasSend[fc.pkg.PkgPath] = has
+	if has {
+		fc.fail(pos, "channel receive/select in a package that has send statements (only close-only channels are modelled)")
+	}
+	fc.externsUsed["close-only channels: package "+fc.pkg.PkgPath+" has no send statement (syntactic scan), so a receive returns exactly when the channel is closed; context.Done() channels are closed, never sent on (documented)"] = true
+}
+
+func (fc *FnCtx) chanClosedTerm(st *State, ch string) string {
+	return app("select", fc.heapGet(st, "$chanclosed", "(Array Int Bool)"), ch)
+}
+
+// recvFrom: a blocking receive that has returned: the channel is closed.
+func (fc *FnCtx) recvFrom(st *State, chExpr ast.Expr, pos token.Pos) (Val, types.Type) {
+	fc.closeOnlyPkg(pos)
+	ch := fc.eval1(st, chExpr)
+	ct, ok := ch.Ty.Underlying().(*types.Chan)
+	if !ok {
+		fc.fail(pos, "receive from non-channel")
+	}
+	fc.noLockHeldWhileBlocking(st, pos)
+	fc.blockHavoc(st)
+	fc.assume(st, fc.chanClosedTerm(st, ch.T))
+	return fc.zero(ct.Elem()), ct.Elem()
+}
+
+// noLockHeldWhileBlocking: a goroutine that blocks on a channel while holding a monitor mutex of its receiver
+// stalls every other operation on that monitor.
+func (fc *FnCtx) noLockHeldWhileBlocking(st *State, pos token.Pos) {
+	if fc.contract == nil {
+		return
+	}
+	var addrs []string
+	for a := range fc.touchedMu {
+		addrs = append(addrs, a)
+	}
+	if fc.contract.LockIs != nil && fc.inlineOld == nil {
+		sig := fc.fn.Type().(*types.Signature)
+		for i := 0; i < sig.Params().Len(); i++ {
+			p := sig.Params().At(i)
+			if _, ok := fc.contract.LockIs[p.Name()]; ok {
+				if v, ok := st.vars[p]; ok {
+					addrs = append(addrs, v.T)
+				}
+			}
+		}
+	}
+	sort.Strings(addrs)
+	var eqs []string
+	seen := map[string]bool{}
+	for _, a := range addrs {
+		if !seen[a] {
+			seen[a] = true
+			eqs = append(eqs, app("=", fc.heldGet(st, a), "0"))
+		}
+	}
+	if len(eqs) > 0 {
+		fc.assertNamed(st, and(eqs...), "no-block-under-lock", "", "no monitor mutex is held while blocking on a channel", pos)
+	}
+}
+
 func (fc *FnCtx) execSelect(st *State, x *ast.SelectStmt, label string) *Outcome {
-	fc.fail(x.Pos(), "select (outside subset here)")
-	return nil
+	fc.closeOnlyPkg(x.Pos())
+	out := &Outcome{}
+	var normals []*State
+	var def *ast.CommClause
+	type rcase struct {
+		cl *ast.CommClause
+		ch Val
+	}
+	var cases []rcase
+	for _, c := range x.Body.List {
+		cl := c.(*ast.CommClause)
+		if cl.Comm == nil {
+			def = cl
+			continue
+		}
+		var rx ast.Expr
+		switch cm := cl.Comm.(type) {
+		case *ast.ExprStmt:
+			rx = cm.X
+		case *ast.AssignStmt:
+			if len(cm.Rhs) == 1 {
+				rx = cm.Rhs[0]
+			}
+		}
+		u, ok := ast.Unparen(rx).(*ast.UnaryExpr)
+		if !ok || u.Op != token.ARROW {
+			fc.fail(cl.Pos(), "select case is not a receive (outside subset)")
+		}
+		if as, ok := cl.Comm.(*ast.AssignStmt); ok {
+			for _, l := range as.Lhs {
+				if id, ok := l.(*ast.Ident); !ok || id.Name != "_" {
+					fc.fail(cl.Pos(), "select receive binding a value (outside subset)")
+				}
+			}
+		}
+		cases = append(cases, rcase{cl, fc.eval1(st, u.X)})
+	}
+	if def == nil {
+		fc.noLockHeldWhileBlocking(st, x.Pos())
+		fc.blockHavoc(st)
+	}
+	// a case is taken only if its channel is closed (the choice among several ready cases is arbitrary)
+	for _, rc := range cases {
+		a := st.clone()
+		pick := fc.fresh("selectpick", "Bool")
+		a.pc = fc.define("pc", "Bool", and(st.pc, pick))
+		fc.assume(a, fc.chanClosedTerm(a, rc.ch.T))
+		r := fc.execBlock(rc.cl.Body, a)
+		fc.collectSwitch(out, r, label, &normals)
+	}
+	if def != nil {
+		// default: no case was ready, i.e. none of the channels is closed
+		a := st.clone()
+		pick := fc.fresh("selectdefault", "Bool")
+		a.pc = fc.define("pc", "Bool", and(st.pc, pick))
+		for _, rc := range cases {
+			fc.assume(a, not(fc.chanClosedTerm(a, rc.ch.T)))
+		}
+		r := fc.execBlock(def.Body, a)
+		fc.collectSwitch(out, r, label, &normals)
+	}
+	out.normal = fc.mergeAll(normals)
+	return out
 }
 
 func (fc *FnCtx) chanRecv2(st *State, x *ast.UnaryExpr) []Val {
-	fc.fail(x.Pos(), "channel receive (outside subset here)")
-	return nil
+	v, _ := fc.recvFrom(st, x.X, x.Pos())
+	return []Val{v, {T: "false", Ty: tBool}}
 }
 
 // splitConj splits a spec formula into conjuncts, also under `forall ... :: g ==> (a && b)`.
@@ -1404,4 +1544,11 @@ func (fc *FnCtx) slicedLocals() map[types.Object]bool {
 	}
 	fc.eng.slicedArr[fc.pkg.PkgPath] = m
 	return m
+}
+
+// blockHavoc: while this goroutine is blocked others run: any channel may get closed (closed ones stay closed).
+// State guarded by a monitor is not touched here: it is havocked when its lock is (re)acquired.
+func (fc *FnCtx) blockHavoc(st *State) {
+	fc.heapGet(st, "$chanclosed", "(Array Int Bool)")
+	fc.havocRegion(st, region{key: "$chanclosed", sort: "(Array Int Bool)"})
 }
